@@ -323,7 +323,7 @@ def node_protocol(ctx: Ctx) -> None:
         if init is None:
             continue
         vals = [unparse(v) for _, tgt, v in stores(init.node) if is_self_attr(tgt, "ns_map") and v is not None]
-        ok = vals in (["ns_map"], ["parent.ns_map"], ["{}"])
+        ok = vals in (["ns_map"], ["parent.ns_map if ns_map is None else ns_map"], ["{}"])
         ctx.ob(f"{s.name} stores the in-scope map it was given", ok, at=init, construct=f"{s.name} ns_map value", msg=f"stores {vals}")
 
 
